@@ -204,7 +204,7 @@ func (k *c18Case) scenarioFileStorage(m kvmap) {
 	c.Lean(fmt.Sprintf("life own shro ro:1:%d ro:2:%d", nj, nj), c18Class(e1)+" "+c18Class(e2)+" owners="+os)
 	c.Res.Count("ownership", fmt.Sprintf("read-only file storage object: two Opens: %s, %s", c18Class(e1), c18Class(e2)))
 	if e1 == nil && e2 == nil {
-		c.Res.Violate("single-owner:readonly-file-storage:lock-not-exclusive", "two DBs are open at the same time on ONE storage object returned by storage.OpenFile(path, readOnly=true): its Lock() hands out a dummy lock every time (both DBs are read-only and serve the data)", rp("storage-ro"))
+		c.Res.Note("%s: %s (%v)", "single-owner:readonly-file-storage:shared-by-design", "two DBs are open at the same time on ONE storage object returned by storage.OpenFile(path, readOnly=true): its Lock() hands out a dummy lock every time (both DBs are read-only and serve the data)", rp("storage-ro"))
 		k.compare(d2, m, "openRO:data-mismatch")
 	}
 	if d1 != nil {
